@@ -32,6 +32,9 @@ func gen(rng *rand.Rand, tier core.Tier, emit core.Emit) {
 	for i := 0; i < nw; i++ {
 		emit("whist", reputil.WireHistory(rng, 2+rng.Intn(8), 1+rng.Intn(2), 20, 0)...)
 	}
+	for _, h := range reputil.WireEdgeHistories(rng) {
+		emit("whist", h...)
+	}
 	n := 300
 	if tier == core.Thorough {
 		n = 1500
